@@ -310,7 +310,12 @@ def explore_c14(rng, tier, res, deep=False):
                     q = "$" + ".a" * (300 if suffix == "" else rng.choice([300, 600, 1500])) + suffix
                 elif rng.random() < 0.35:
                     q = rng.choice(["$[?@.v == $[2].v]", "$[?@ == $[0]]", "$[?$[1]]", "$..[?@ == $.b]", "$[?@.a == $[0].a]",
-                                    "$[?count($[*]) > 2]", "$.a[?@ < $.b]", "$[?$[?@.v == 2]]", "$[?@ != $[-1]]"])
+                                    "$[?count($[*]) > 2]", "$.a[?@ < $.b]", "$[?$[?@.v == 2]]", "$[?@ != $[-1]]",
+                                    # almost-valid filters, each rejected by one grammar rule, between valid ones that use the
+                                    # same operators: the verdict on a text does not depend on what was compiled before
+                                    "$[?@.a == (@.b)]", "$[?(@.a) == 1]", "$[?(@.a) < (@.b)]", "$[?1 == (@.a)]", "$[?@.a == 1 && (@.b) != 2]",
+                                    "$[?!@.a == 1]", "$[?@.a == !@.b]", "$[?@.a >= (1)]", "$[?(@.a || @.b) == true]", "$[?@.a == 1 == 1]",
+                                    "$[?@.a < @.b && @.b >= 2]", "$[?(@.a || @.b) && !(@.a == 2)]", "$[?@.a != 1 || @.b <= 2 || @.a > 0]"])
                 r = outcome(lambda: envs[ei].compile(q))
                 if isinstance(r, str):
                     outs_real.append("raised " + r[4:])
